@@ -115,14 +115,23 @@ CalParseDate(s) ==
          THEN CalVal(ym.y, <<ym.r[1], dd>>) ELSE CalNone
     ELSE CalNone
 
+\* The one open finding (F18, known_findings.txt: week53-accepted-when-dec31-in-week1).  A variant
+\* reading, NOT the specification: "when 31 December belongs to week 1 of the next year, accept week
+\* 53".  It exists only so that a disagreement can be classified as "explained exactly by that rule":
+\* checks evaluate CalClassOfK(f, TRUE) next to the specification, and a configuration may set
+\* CalLenientWeek53 <- TRUE to re-validate rejected trace events under the variant.
+CalLenientWeek53 == FALSE
+CalWeeksAccepted(y, lenient) == IF lenient /\ CalDec31InNextYear(y) THEN 53 ELSE CalWeeksIn(y)
+
 \* YYYY-Www
-CalParseWeek(s) ==
+CalParseWeekK(s, lenient) ==
     LET n == Len(s) IN
     IF n >= 8 /\ s[n - 3] = 45 /\ s[n - 2] = 87 /\ CalDigitRun(s, n - 1, n) /\ CalYearOk(SubSeq(s, 1, n - 4))
     THEN LET w == CalNat(SubSeq(s, n - 1, n)) IN
-         IF w >= 1 /\ w <= CalWeeksIn(CalYearRep(SubSeq(s, 1, n - 4)))
+         IF w >= 1 /\ w <= CalWeeksAccepted(CalYearRep(SubSeq(s, 1, n - 4)), lenient)
          THEN CalVal(CalStrip(SubSeq(s, 1, n - 4)), <<w>>) ELSE CalNone
     ELSE CalNone
+CalParseWeek(s) == CalParseWeekK(s, CalLenientWeek53)
 
 \* HH:MM, optionally :SS, optionally .f, .ff or .fff   (value: hour, minute, second, millisecond)
 CalParseTime(s) ==
@@ -255,12 +264,19 @@ CalFacts(d, i) == [cand |-> CalCandidate(d, i), t |-> CalTypeOf(d, i), mn |-> Ca
                    mx |-> CalAttrOpt(d, i, CalAMax), v |-> CalAttrOpt(d, i, CalAValue)]
 
 \* "none": not a candidate, or no range limitation (no valid bound); otherwise "in" or "out"
-CalClassOf(f) ==
+\* (lenient: week strings read under the F18 variant; the specification is lenient = FALSE)
+CalParseOptK(t, o, lenient) == IF t = CalTWeek /\ Len(o) = 1 THEN CalParseWeekK(o[1], lenient) ELSE CalParseOpt(t, o)
+CalClassOfK(f, lenient) ==
     IF ~f.cand THEN "none"
-    ELSE LET mn == CalParseOpt(f.t, f.mn)
-             mx == CalParseOpt(f.t, f.mx)
+    ELSE LET mn == CalParseOptK(f.t, f.mn, lenient)
+             mx == CalParseOptK(f.t, f.mx, lenient)
          IN IF ~(mn.ok \/ mx.ok) THEN "none"
-            ELSE IF CalOut(f.t, mn, mx, CalParseOpt(f.t, f.v)) THEN "out" ELSE "in"
+            ELSE IF CalOut(f.t, mn, mx, CalParseOptK(f.t, f.v, lenient)) THEN "out" ELSE "in"
+CalClassOf(f) == CalClassOfK(f, CalLenientWeek53)
+\* the class the F18 variant gives when it differs from the specification's, else "same"
+CalKnownClass(d, i) ==
+    LET f == CalFacts(d, i) IN
+    IF f.cand /\ f.t = CalTWeek /\ CalClassOfK(f, TRUE) # CalClassOfK(f, FALSE) THEN CalClassOfK(f, TRUE) ELSE "same"
 CalClass(d, i) == CalClassOf(CalFacts(d, i))
 CalOutOfRange(d, i) == CalClass(d, i) = "out"
 CalInRange(d, i) == CalClass(d, i) = "in"
@@ -315,6 +331,7 @@ CalThmPeriod400(y) ==
     /\ CalWeeksIn(y + 400) = CalWeeksIn(y)
     /\ \A m \in 1..12 : CalDaysIn(y + 400, m) = CalDaysIn(y, m)
     /\ CalDaysBefore(y + 400) - CalDaysBefore(y) = 146097          \* = 20871 weeks
+    /\ CalDec31InNextYear(y + 400) = CalDec31InNextYear(y)
 \* Gauss's weekday formula is the day count
 CalThmJan1(y) == CalJan1(y) = CalDowOfDayNo(CalDaysBefore(y))
 \* the year is the sum of its months, consecutive years are a year apart
@@ -329,6 +346,8 @@ CalThmWeeks(y) ==
     /\ CalWeeksIn(y) \in {52, 53}
     /\ (CalDec31InNextYear(y) => CalWeeksIn(y) = 52)
     /\ CalWeek1Monday(y) - CalDaysBefore(y) \in -3..3
+\* 31 December belongs to week 1 of the next year exactly when it is a Monday, Tuesday or Wednesday
+    /\ (CalDec31InNextYear(y) <=> CalDowOfDayNo(CalDaysBefore(y + 1) - 1) \in {1, 2, 3})
 \* 71 of every 400 consecutive years have 53 weeks
 CalThm71(y0) == Cardinality({y \in y0..(y0 + 399) : CalWeeksIn(y) = 53}) = 71
 \* a year given as a digit string has the calendar of its representative
